@@ -7,7 +7,7 @@ import (
 	"github.com/xjslang/xjs/debug"
 	"github.com/xjslang/xjs/lexer"
 	"github.com/xjslang/xjs/token"
-	
+
 	"xmc/core"
 	"xmc/gen"
 )
